@@ -83,7 +83,7 @@ def to_fraction(c):
     if isinstance(c, float):
         if c != c or c in (float("inf"), float("-inf")):
             raise ValueError("non-finite constant")
-        return Fraction(repr(c))
+        return Fraction(repr(float(c)))
     if hasattr(c, "numerator") and hasattr(c, "denominator"):
         return Fraction(int(c.numerator), int(c.denominator))
     try:
@@ -1854,6 +1854,14 @@ class Ctx:
         global CTX
         st = self.stats
         ex = [neg] if neg is not TRUE else []
+        if neg is not TRUE and self.engine.big_terms:
+            # a huge polynomial disequality (identity that failed the normal-form zero test after unfolding): the SMT translation
+            # is out of reach, but a non-zero polynomial is non-zero at generic points: hand it to the replay / witness search as a
+            # candidate without solver model (reported only if a concrete input reproduces; otherwise the run is inconclusive)
+            size = _formula_size(neg)
+            if size > self.engine.big_terms and _only_disequalities(neg):
+                st.add("big", "candidate")
+                return ("cex", None)
         can_split = depth > 0 and self._pick_split_atom(neg) is not None
         r = self.check_sat(ex, purpose="prove-quick" if can_split else "prove")
         if r == "unsat":
@@ -1926,6 +1934,24 @@ class Ctx:
         return (pref or und)[0]
 
 
+def _formula_size(f):
+    if f.kind == "rel":
+        return len(f.a)
+    if f.kind in ("and", "or"):
+        return sum(_formula_size(g) for g in f.a)
+    if f.kind == "not":
+        return _formula_size(f.a)
+    return 0
+
+
+def _only_disequalities(f):
+    if f.kind == "rel":
+        return f.b == "!=0"
+    if f.kind == "or":
+        return all(_only_disequalities(g) for g in f.a)
+    return False
+
+
 def _where():
     """file:line of the innermost frame inside /repo/src (for event reports)"""
     f = sys._getframe(1)
@@ -1985,7 +2011,7 @@ def _z3_to_fraction(v):
 class Engine:
     """Explores all paths of harness(ctx) by re-execution."""
 
-    def __init__(self, pool=40, max_paths=20000, t1_ms=5000, t3_ms=8000, t2_ms=8000, feas_ms=1500, confirm_feas=True, wall_s=None, split_depth=6):
+    def __init__(self, pool=40, max_paths=20000, t1_ms=5000, t3_ms=8000, t2_ms=8000, feas_ms=1500, confirm_feas=True, wall_s=None, split_depth=6, big_terms=4000):
         self.pool = pool
         self.max_paths = max_paths
         self.t1_ms = t1_ms
@@ -1994,6 +2020,7 @@ class Engine:
         self.feas_ms = feas_ms
         self.confirm_feas = confirm_feas
         self.split_depth = split_depth
+        self.big_terms = big_terms
         self.stats = Stats()
         self.stack = []
         self.wall_s = wall_s
